@@ -5,7 +5,7 @@ HOOK_COMMITS = ["b8da976", "b9b8f57", "e9be43a", "cdf7848"]
 CLAIMS = {
     "C05": dict(
         category="proof", technique="contract-based deductive verification (Verus/SMT, inductive invariants over a sequence view, on the extracted real functions; Arrow array behind an assumed sequence view)",
-        text="Dense-key (perfect-hash) join map only: ArrayMap::{calculate_range, key_to_index, get_value, fill_data, try_new} are proved to build, for every key, a chain listing exactly the build rows with that key in ascending order (both representations: no duplicates / chained), and ArrayMap::lookup_and_get_indices is proved to return, page by page and for every resume offset, exactly the join of the probe key column with the build key column: for every non-NULL probe row, in order, every build row with an equal key, each once; NULL probes match nothing; at most `limit` pairs per page; pages concatenate to the unpaged answer. All other join operators, join types, filters, outer/semi/anti/mark emission of C05 are whole-engine behaviour outside the reach of function contracts and are not claimed.",
+        text="Dense-key (perfect-hash) join map only: ArrayMap::{calculate_range, key_to_index, get_value, fill_data, try_new} are proved to build, for every key, a chain listing exactly the build rows with that key in ascending order (both representations: no duplicates / chained), and ArrayMap::lookup_and_get_indices is proved to return, page by page and for every resume offset, exactly the join of the probe key column with the build key column: for every non-NULL probe row, in order, every build row with an equal key, each once; NULL probes match nothing; at most `limit` pairs per page; pages concatenate to the unpaged answer. Also under contract: the index kernels behind semi/anti/outer emission, get_anti_indices (exactly the rows of the range that were not matched, ascending, each once) and get_semi_indices (exactly the matched rows of the range, in order, duplicates removed), for every ascending index array. All other join operators, join types, filters and the emission logic around these kernels are whole-engine behaviour outside the reach of function contracts and are not claimed.",
         note="Trusted: Verus+Z3; usize 64 bit; Arrow PrimitiveArray viewed as Seq<Option<u64>> through assumed accessors; generic key type abstracted to its u64 image (R3), the type-dispatch macro replaced by the call it expands to; rewrites R1/R6/R9/R13/R18 and a ghost parameter naming the build column. Preconditions from call sites: build rows < u32::MAX, probe rows <= u32::MAX, 1 <= limit."),
     "C06": dict(
         category="proof", technique="contract-based verification with Kani/CBMC on the real crate (loop-free full-domain harnesses over the state machines)",
